@@ -16,8 +16,8 @@ using namespace vf;
 #endif
 
 static const char *feat(int i) {
-  static const char *n[] = {"n_ge_64", "present_key", "absent_key", "correct_hint_lower_bound", "correct_hint_upper_bound", "smallset_inline", "n_ge_512", "smallset_large_over_flatset"};
-  return i < 8 ? n[i] : 0;
+  static const char *n[] = {"n_ge_64", "present_key", "absent_key", "correct_hint_lower_bound", "correct_hint_upper_bound", "smallset_inline", "n_ge_512", "smallset_large_over_flatset", "smallset_beyond_N"};
+  return i < 9 ? n[i] : 0;
 }
 static int ceil_log2(unsigned long n) {
   int k = 0;
@@ -211,6 +211,65 @@ static void large_small_case(const char *name, long n) {
   enum_end(n >= 64);
 }
 
+// whatever the number of elements: as long as the elements live inside the SmallSet object (inline state), a lookup costs <= 2N+2;
+// in the large state over a FlatSet the logarithmic bound applies. Small element types leave padding bytes in the object.
+template <class S, long N, bool Flat>
+static void beyond_case(const char *name, long fill) {
+  typedef typename S::value_type E;
+  char key[128];
+  snprintf(key, sizeof key, "smallset(beyond N) %s N=%ld fill=%ld", name, N, fill);
+  if (!enum_begin(key)) return;
+  ledgers_reset();
+  feature(8);
+  {
+    S s;
+    for (long i = 0; i < fill; ++i) s.insert(ET<E>::make(static_cast<int>(2 * i + 1)));
+    if (static_cast<long>(s.size()) != fill) violation(P19, "setup: size %ld != %ld", static_cast<long>(s.size()), fill);
+    const S &cs = s;
+    const char *b = reinterpret_cast<const char *>(&s), *q = reinterpret_cast<const char *>(&*cs.begin());
+    const bool inl = q >= b && q < b + sizeof(S);
+    const long n = fill;
+    const unsigned long long Blog = 2ull * ceil_log2(static_cast<unsigned long>(n + 1)) + 4;
+    const unsigned long long B = inl ? 2ull * N + 2 : Blog;
+    if (inl || Flat)
+      for (long r = 0; r <= 2 * fill + 1 && !failed(); ++r) {
+        E k(ET<E>::make(static_cast<int>(r)));
+        unsigned long long c0;
+        ++g_probes;
+        COUNTED(cs.find(k), inl ? "SmallSet::find with its elements inside the object (inline state)" : "SmallSet::find (large, FlatSet)");
+        COUNTED(cs.contains(k), inl ? "SmallSet::contains with its elements inside the object (inline state)" : "SmallSet::contains (large, FlatSet)");
+        COUNTED(cs.count(k), inl ? "SmallSet::count with its elements inside the object (inline state)" : "SmallSet::count (large, FlatSet)");
+      }
+    // insertion with a correct hint in the large state: constant number of calls (the hint is forwarded to the backing set)
+    if (!inl) {
+      for (int form = 0; form < 3 && !failed(); ++form)
+        for (long r = 0; r <= 2 * fill && !failed(); r += 2) {  // absent keys 0, 2, 4, ...: the correct hint is the element 2i+1 (or end())
+          const int v = static_cast<int>(r);
+          typename S::const_iterator hint = r + 1 <= 2 * fill - 1 ? cs.find(ET<E>::make(v + 1)) : cs.end();
+          unsigned long long c0 = calls();
+          typename S::iterator it = form == 0 ? s.insert(hint, ET<E>::make(v)) : form == 1 ? s.emplace_hint(hint, v) : s.insert(hint, static_cast<const E &>(E(ET<E>::make(v))));
+          unsigned long long used = calls() - c0;
+          if (used > 8)
+            violation(P19, "SmallSet (large state, n=%ld) %s with the correct hint: %llu comparator calls (must not depend on n; bound 8)", n,
+                      form == 0 ? "insert(hint, T&&)" : form == 1 ? "emplace_hint" : "insert(hint, const T&)", used);
+          s.erase(it);
+        }
+    }
+  }
+  enum_end(fill >= 2);
+}
+template <class E, long N>
+static void run_beyond(const char *name) {
+  typedef amc::SmallSet<E, N, CLess<E>, AStd<E> > S1;
+  typedef amc::SmallSet<E, N, CLess<E>, AStd<E>, amc::FlatSet<E, CLess<E>, AStd<E>, amc::vector<E, AStd<E> > > > S2;
+  static const long more[] = {1, 2, 3, 4, 5, 6, 8, 12, 20, 45};
+  for (unsigned a = 0; a < 10; ++a) {
+    if (2 * (N + more[a]) + 1 > 120 && sizeof(E) == 1) continue;  // keys must fit the element type
+    beyond_case<S1, N, false>((std::string(name) + "/std::set").c_str(), N + more[a]);
+    beyond_case<S2, N, true>((std::string(name) + "/flat").c_str(), N + more[a]);
+  }
+}
+
 template <class S>
 static void run_flat(const char *name) {
   const bool thorough = est().thorough;
@@ -262,6 +321,12 @@ int main(int argc, char **argv) {
     if (est().thorough)
       for (long n = 5; n <= 600; ++n) large_small_case<LS>("int,4/flat", n);
   }
+  run_beyond<char, 3>("char");
+  run_beyond<unsigned char, 10>("uchar");
+  run_beyond<uint16_t, 5>("u16");
+  run_beyond<I, 2>("int");
+  run_beyond<I, 7>("int");
+  run_beyond<TR, 4>("TR");
   run_small<I, 1>("int");
   run_small<I, 2>("int");
   run_small<I, 4>("int");
